@@ -187,7 +187,9 @@ LEVEL_TEXT = ('props/C13.v proves on the model (coq/theories/FLock.v; lemmas in 
               '(for every victim program on its own object killed after any number of primitive steps, in each of the three '
               'scenarios with the waiter started after the death, Case_C13.ok accepts what the model predicts; '
               'monitor_complete_static: the same for every statically contract-respecting program (prog_okb) with no hypothesis '
-              'on the run; gaps: waiter started before the crash, victim not dead).  The crash semantics itself is the kernel assumption; it is validated by SIGKILLing '
+              'on the run), monitor_complete_all / _all_static (all kinds of cases: also the waiter started while the victim is '
+              'still running - it parks in its blocking flock, its descriptor never becomes the holder, after the death it gets '
+              'the lock in one step - and the victim that finished without being killed).'  '  The crash semantics itself is the kernel assumption; it is validated by SIGKILLing '
               'a real victim at every line event of aiuti/filelock.py and comparing what the parent / survivors observe with the '
               'model\'s prediction for the pc the victim had reached.')
 LEVEL_NOTE = ('trusted: Coq kernel + vm_compute; no axioms; kernel releases flock on process death (= the model\'s ECrash: '
